@@ -24,60 +24,156 @@ from prompt_toolkit.output.vt100 import (
 from prompt_toolkit.styles import (ANSI_COLOR_NAMES, DEFAULT_ATTRS, Attrs, DummyStyle, DynamicStyle, Style,
                                    merge_styles)
 from prompt_toolkit.styles import style as style_mod
+from prompt_toolkit.styles import style_transformation as strans
+from prompt_toolkit.styles import Priority, style_from_pygments_dict, pygments_token_to_classname
 from prompt_toolkit.styles.style import _expand_classname, _parse_style_str, parse_color
+from prompt_toolkit.styles.defaults import default_ui_style, default_pygments_style
+from prompt_toolkit.styles.style_transformation import (
+    AdjustBrightnessStyleTransformation, ConditionalStyleTransformation, DummyStyleTransformation,
+    DynamicStyleTransformation, ReverseStyleTransformation, SetDefaultColorStyleTransformation,
+    SwapLightAndDarkStyleTransformation, merge_style_transformations)
 
 ID = "C19"
 DRIVER = "drv_c19"
 PROPS = ["Ptk.Props.C19", "Ptk.Props.C19Cascade", "Ptk.Props.C19Color", "Ptk.Props.C19Sgr", "Ptk.Props.C19Depth",
-         "Ptk.Props.C19Style", "Ptk.Props.C19Valid", "Ptk.Props.C19Merge"]
+         "Ptk.Props.C19Style", "Ptk.Props.C19Valid", "Ptk.Props.C19Merge", "Ptk.Props.C19Ext", "Ptk.Props.C19Dict",
+         "Ptk.Props.C19Obj", "Ptk.Props.C19Shadow", "Ptk.Props.C19Transform", "Ptk.Props.C19TrHash",
+         "Ptk.Props.C19Pins", "Ptk.Props.C19Ext2", "Ptk.Props.C19Stream", "Ptk.Props.C19Expand",
+         "Ptk.Props.C19Noinherit", "Ptk.Props.C19Pygments"]
 LEVEL_TEXT = ("Lean 4 theorems over an executable model of styles/style.py (parse_color, _parse_style_str, Style, "
-              "get_attrs_for_style_str with the combos construction, _merge_attrs, merge_styles), output/vt100.py "
-              "(_get_closest_ansi_color, _16/_256ColorCache, _EscapeCodeCache) and formatted_text/ansi.py (ANSI parser, "
-              "_select_graphic_rendition, _create_style_string): last-wins cascade with every attribute concrete, a rule "
-              "takes part iff all its classes occur, merged sheets = concatenated rule tables, merging is pure over "
-              "shared sheet objects (heap model of list.extend), argmin lemma for any "
-              "palette (nearest, first on ties, exact colours fixed), 24-bit escape -> ANSI -> style string -> Attrs is "
-              "the identity on canonical attributes, 8/4/1-bit escapes decode to the nearest palette colour / ANSI name / "
-              "no colour; side conditions are re-decided by the kernel on tables regenerated from /repo on every run and "
-              "the model is tied to the code by a differential correspondence plus the property oracle")
+              "Style.from_dict + Priority, get_attrs_for_style_str with the combos construction, _merge_attrs, merge_styles, "
+              "_MergedStyle with its one-entry cache, invalidation_hash), styles/base.py (DummyStyle, DynamicStyle), "
+              "styles/pygments.py, styles/style_transformation.py (all transformations; the float HLS arithmetic is a "
+              "parameter), Application._create_merged_style with the default sheets regenerated from styles/defaults.py, "
+              "output/vt100.py (_get_closest_ansi_color, _16/_256ColorCache, _EscapeCodeCache) and formatted_text/ansi.py "
+              "(ANSI parser, _select_graphic_rendition, _create_style_string): last-wins cascade with every attribute "
+              "concrete; a rule takes part iff all its classes occur = iff each is a dotted prefix of a class named in the "
+              "string; '[..]' parts ignored, 'noinherit' sets everything; MOST_PRECISE = THE stable sort by number of "
+              "elements (uniqueness proved), most precise applicable rule applied last; merged sheets = concatenated rule "
+              "tables over any object graph (Dummy/Dynamic/nested merges), merging is pure over shared sheet objects; "
+              "equal invalidation_hash => equal rules, hence the merged style's cache is transparent for every call "
+              "sequence with changing DynamicStyles; a user rule beats a default rule with the same classes in the "
+              "application's style stack; transformations: merged = composition, frame (flags untouched, no None, colours "
+              "stay valid so the transformed attributes still round-trip), Reverse / ANSI part of Swap are involutions, "
+              "equal hash => equal transformation; argmin lemma for any palette (nearest, first on ties, exact colours "
+              "fixed), an RGB background never collapses onto the ANSI colour of a different RGB foreground at 4 bit; "
+              "24-bit escape -> ANSI -> style string -> Attrs is the identity on canonical attributes for every Attrs "
+              "field, also for each sequence inside a stream; 8/4/1-bit escapes decode to the nearest palette colour / "
+              "ANSI name / no colour. The if/elif chains of _parse_style_str, _EscapeCodeCache.__missing__, "
+              "_select_graphic_rendition, _create_style_string are extracted from the AST of the current tree on every "
+              "run and the kernel checks, for all inputs, that the model equals their interpretation; table side "
+              "conditions are re-decided on regenerated tables; differential correspondence + property oracle")
 LEVEL_NOTE = ("trusted: Lean kernel, axioms propext/Classical.choice/Quot.sound only; the hand-written model "
-              "(validated by the correspondence, not proved equal to the Python); CPython str/int/dict semantics")
+              "(validated by the correspondence, not proved equal to the Python; the four if/elif chains named above "
+              "ARE proved equal to the interpretation of the extracted AST); CPython str/int/dict/sorted semantics; "
+              "colorsys float arithmetic is outside the model (measured values are inputs)")
 TECHNIQUE = "machine-checked proof (Lean 4) + generated tables + differential correspondence + property oracle"
 RULE = ("exhaustive: every rule list up to the tier bound over 6 class-name sets x 3 attribute sets, every style "
         "string up to 3 parts over 7 parts (single, dotted, comma-combined classes, inline attributes), every "
         "contiguous split of the rule lists into 2-3 merged sheets; every session of <=3 merge/sheet queries over 10 "
-        "targets sharing three Style objects (same first sheet in different merges, sheet alone before/after, "
-        "repeated evaluation, .style_rules reads); all 128 flag tuples x colour pairs x 4 depths; "
-        "RGB grid + palette neighbourhoods (thorough: all 256^3 triples for the 256-colour map); then seeded "
-        "random sheets / style strings / attrs / SGR parameter lists incl. malformed ones. A case is non-trivial "
-        "when at least one rule or inline part applies, resp. the colour is not an exact palette entry")
+        "targets sharing three Style objects; Style.from_dict for every ordered choice of 3 (thorough 4) of 9 keys x "
+        "both priorities; every merge of <=2 of 11 style objects (Style / DummyStyle / DynamicStyle / nested / None) "
+        "with rules, hash and queries; every sequence of <=2 (thorough 3) re-targetings of the DynamicStyle parts of 3 "
+        "merged styles, queried after each step; the Application stack for 8 user styles x pygments on/off; every "
+        "primitive transformation x 306 attribute tuples, every wrapper and every pair; streams of escape sequences "
+        "with each flag on/off after each other; all 128 flag tuples x colour pairs x 4 depths; RGB grid + palette "
+        "neighbourhoods (thorough: all 256^3 triples for the 256-colour map); then seeded random sheets / dicts / "
+        "object graphs / transformation trees / style strings / attrs / streams / SGR parameter lists incl. malformed "
+        "ones. A case is non-trivial when at least one rule or inline part applies, resp. the colour is not an exact "
+        "palette entry, resp. the object / transformation is not a bare dummy")
 EXHAUSTIVE = True
 EXHAUSTIVE_SCOPE = {
     "quick": "rule lists <=1 over 18 rules x all style strings <=3 parts over 7 parts, rule lists of 2 x all style "
-             "strings <=2 parts (+ every 5th of 3 parts); all splits into 2-3 sheets of lists <=2; 128 flag tuples "
+             "strings <=2 parts (+ every 5th of 3 parts); all splits into 2-3 sheets of lists <=2; from_dict: all "
+             "3-permutations of 9 keys x 2 priorities; objects: 148 graphs; merged-style sessions: 3 tops x all <=2 "
+             "re-targetings of 8; 19 primitive transformations x 306 attrs, 90 composites; 128 flag tuples "
              "x 14 colour pairs x depths {1,4,8,24}; RGB 17^3 grid for both maps",
     "thorough": "rule lists <=2 over 18 rules x all style strings <=3 parts over 7 parts (lists <=1: <=4 parts), rule "
-                "lists of 3 x strings <=2 parts (+ sample); all splits into 2-3 sheets; 128 flag tuples x 14 colour "
+                "lists of 3 x strings <=2 parts (+ sample); all splits into 2-3 sheets; from_dict: half of all "
+                "4-permutations of 9 keys; sessions: all <=3 re-targetings; 128 flag tuples x 14 colour "
                 "pairs x 4 depths; real code + oracle on ALL 256^3 RGB triples for the 256-colour map (model side on "
                 "every 8th r-plane + grids); 52^3 grid x exclusion lists for the 16-colour map"}
-TRUSTED = ["harness/c19.py compares Attrs / escape strings / fragments / palette indices line by line",
-           "harness/gen_c19.py prints the live colour tables of /repo into lean/Ptk/Gen/C19.lean, plus one behaviour "
-           "probe (does parse_color reject '#'+non-hex?) that selects the corresponding branch of the model",
-           "Ptk/Model/C19*.lean are hand translations of styles/style.py, output/vt100.py (colour part), "
-           "formatted_text/ansi.py (correspondence-checked)"]
+TRUSTED = ["harness/c19.py compares Attrs / escape strings / fragments / palette indices / rule lists / canonicalised "
+           "hashes line by line (id() values are renamed to the index of the Style object, transformation instance "
+           "hashes to their class)",
+           "harness/gen_c19.py prints the live colour tables of /repo into lean/Ptk/Gen/C19.lean, and the AST-extracted "
+           "if/elif chains, Attrs._fields, CLASS_NAMES_RE, Priority, OPPOSITE_ANSI_COLOR_NAMES and the default style "
+           "sheets into lean/Ptk/Gen/C19X.lean, plus two behaviour probes (does parse_color reject '#'+non-hex? does "
+           "AdjustBrightness skip the colour 'default'?) that select the corresponding branch of the model",
+           "Ptk/Model/C19*.lean are hand translations of styles/style.py, styles/base.py, styles/pygments.py, "
+           "styles/style_transformation.py, output/vt100.py (colour part), formatted_text/ansi.py (correspondence-checked)"]
 ASSUMPTIONS = ["CPython str.split/lower/int(s,16)/dict-order semantics; str.lower and int() modelled for ASCII input",
+               "sorted(key=) is a stable sort (the model is proved to be the unique stable sorted permutation)",
                "str.isspace / regex \\s tables regenerated from the interpreter",
-               "the colour caches (_EscapeCodeCache, _16ColorCache, _256ColorCache, SimpleCache in _MergedStyle) are "
-               "memoisation of pure functions; exercised by repeated and interleaved queries",
+               "the colour caches (_EscapeCodeCache, _16ColorCache, _256ColorCache, memoized get_opposite_color) are "
+               "memoisation of pure functions; exercised by repeated and interleaved queries. The SimpleCache(maxsize=1) "
+               "of _MergedStyle IS modelled",
+               "id() is unique among the Style objects alive (IdOk): a stale renderer cache keyed on a dead object's id "
+               "is C06's subject, not claimed here",
+               "colorsys.rgb_to_hls / hls_to_rgb / int(x*255) are not modelled: the text they produce is a parameter of the "
+               "model (theorems: for every such function printing six hex digits); the correspondence feeds the driver the "
+               "values measured on the real code, so it checks everything AROUND the float arithmetic, not the arithmetic",
                "RGB components are in 0..255 (the encoder guarantees it with & 0xFF)"]
-PARTIAL_SCOPE = ["Style.from_dict / Priority.MOST_PRECISE ordering, DynamicStyle, style transformations are not modelled",
+PARTIAL_SCOPE = ["DummyStyle / DynamicStyle returning None queried DIRECTLY return the default argument untouched (inline "
+                 "parts ignored, None fields kept) - by design 'a style that doesn't style anything'; the cascade theorems "
+                 "apply to Style and merged styles (inside a merge a DummyStyle is the empty sheet: proved)",
+                 "MOST_PRECISE orders the rule TABLE; across different class-name steps of one style string the later "
+                 "step still wins (proved statement: within one step the most precise applicable rule is applied last)",
+                 "a user rule beats a default rule WITH THE SAME CLASS SET in the attributes it sets (any style string); a "
+                 "default rule triggered at a later class name of the string can still override an earlier user rule - "
+                 "that is the left-to-right semantics of the style string, not modelled away",
+                 "SwapLightAndDark on RGB colours and AdjustBrightness: only structure, exceptions and frame are proved; "
+                 "numeric results are parameters. Observed on the real code (not a C19 violation): swapping twice is not "
+                 "the identity on RGB ('010101' -> 'fefefe' -> '000000', float truncation)",
+                 "finding outside the property's statement: AdjustBrightnessStyleTransformation raises ValueError on the "
+                 "foreground colour 'default' (which parse_color hands out and SwapLightAndDark treats as no colour); Lean "
+                 "witness adjust_raises_on_default, totality on every other valid colour adjust_total_gen; "
+                 "proposed_fixes/C19-adjust-brightness-default-colour.diff (the model follows either behaviour via a probe)",
+                 "style_from_pygments_cls is style_from_pygments_dict(cls.styles): only the dict part is modelled; "
+                 "non-ASCII class names (str.lower beyond ASCII) are outside the model",
                  "the round trip is modulo the canonical form: None = ''/False, 'default' = '', hex digits lower-case "
                  "(the decoder prints lower-case hex)",
-                 "known finding: parse_color accepts '#'+6 (or 3) arbitrary characters; such 'colours' emit no / another "
-                 "code. The round-trip theorem excludes exactly these words (ColorArgOk) and Lean proves the "
-                 "counterexample '#zzzzzz' (unvalidated_hex_breaks_roundtrip)",
+                 "parse_color validated hex digits are required for the round trip of every resolvable string "
+                 "(gen_hexValidated; fixed in 5e50570 - if undone, the build breaks and the old witness '#zzzzzz' is replayed)",
                  "16-colour map: the saturation rule lists the obsolete names ansilightgray/ansidarkgray, so grays stay "
                  "admissible for saturated colours (modelled as is; nearest among the admissible set is proved)"]
+ANCHORS = ["src/prompt_toolkit/styles/style.py", "src/prompt_toolkit/styles/base.py",
+           "src/prompt_toolkit/styles/style_transformation.py", "src/prompt_toolkit/styles/pygments.py",
+           "src/prompt_toolkit/styles/defaults.py", "src/prompt_toolkit/output/vt100.py",
+           "src/prompt_toolkit/formatted_text/ansi.py", "src/prompt_toolkit/application/application.py",
+           "src/prompt_toolkit/cache.py"]
+MODELLED = {
+    "src/prompt_toolkit/styles/style.py": [
+        "_is_hex", "parse_color", "_expand_classname", "_parse_style_str", "Style.__init__", "Style.style_rules",
+        "Style.from_dict", "Style.from_dict.key", "Style.get_attrs_for_style_str", "Style.invalidation_hash",
+        "_merge_attrs", "_merge_attrs._or", "merge_styles", "_MergedStyle._merged_style",
+        "_MergedStyle._merged_style.get", "_MergedStyle.style_rules", "_MergedStyle.get_attrs_for_style_str",
+        "_MergedStyle.invalidation_hash"],
+    "src/prompt_toolkit/styles/base.py": [
+        "DummyStyle.get_attrs_for_style_str", "DummyStyle.invalidation_hash", "DummyStyle.style_rules",
+        "DynamicStyle.get_attrs_for_style_str", "DynamicStyle.invalidation_hash", "DynamicStyle.style_rules"],
+    "src/prompt_toolkit/styles/pygments.py": ["style_from_pygments_dict", "pygments_token_to_classname"],
+    "src/prompt_toolkit/styles/defaults.py": ["default_ui_style", "default_pygments_style"],
+    "src/prompt_toolkit/styles/style_transformation.py": [
+        "StyleTransformation.invalidation_hash", "SwapLightAndDarkStyleTransformation.transform_attrs",
+        "ReverseStyleTransformation.transform_attrs", "SetDefaultColorStyleTransformation.transform_attrs",
+        "SetDefaultColorStyleTransformation.invalidation_hash", "AdjustBrightnessStyleTransformation.transform_attrs",
+        "AdjustBrightnessStyleTransformation._color_to_rgb", "AdjustBrightnessStyleTransformation.invalidation_hash",
+        "DummyStyleTransformation.transform_attrs", "DummyStyleTransformation.invalidation_hash",
+        "DynamicStyleTransformation.transform_attrs", "DynamicStyleTransformation.invalidation_hash",
+        "ConditionalStyleTransformation.transform_attrs", "ConditionalStyleTransformation.invalidation_hash",
+        "_MergedStyleTransformation.transform_attrs", "_MergedStyleTransformation.invalidation_hash",
+        "merge_style_transformations", "get_opposite_color"],
+    "src/prompt_toolkit/output/vt100.py": [
+        "_get_closest_ansi_color", "_16ColorCache.get_code", "_16ColorCache._get", "_256ColorCache.__missing__",
+        "_EscapeCodeCache.__missing__", "_EscapeCodeCache._color_name_to_rgb", "_EscapeCodeCache._colors_to_code",
+        "_EscapeCodeCache._colors_to_code.get"],
+    "src/prompt_toolkit/formatted_text/ansi.py": [
+        "ANSI.__init__", "ANSI._parse_corot", "ANSI._select_graphic_rendition", "ANSI._create_style_string"],
+    "src/prompt_toolkit/application/application.py": [
+        "Application._create_merged_style", "Application._create_merged_style.conditional_pygments_style"],
+    "src/prompt_toolkit/cache.py": ["SimpleCache.get"],
+}
 
 DEPTHS = {1: ColorDepth.DEPTH_1_BIT, 4: ColorDepth.DEPTH_4_BIT, 8: ColorDepth.DEPTH_8_BIT,
           24: ColorDepth.DEPTH_24_BIT}
@@ -150,7 +246,308 @@ def model_lines(case):
         return [f"c16code {bg} {r} {g} {b} {core.enc_list(ex, enc_str)}" for (bg, r, g, b, ex) in case["items"]]
     if k in ("esc", "rt"):
         return [f"{k} {d} {enc_attrs(a)}" for d in case["depths"] for a in case["attrs"]]
+    if k == "fd":
+        d = enc_attrs(case.get("default") or DEFAULT_LIST)
+        items = " ".join([str(len(case["items"]))] + [enc_str(x) for r in case["items"] for x in r])
+        mp = 1 if case["mp"] else 0
+        return [f"fd {mp} {items}"] + [f"fdq {mp} {d} {items} {enc_str(t)}" for t in case["strs"]]
+    if k == "pyg":
+        toks = [str(len(case["items"]))]
+        for tok, st in case["items"]:
+            toks += [str(len(tok))] + [enc_str(x) for x in tok] + [enc_str(st)]
+        return ["pyg " + " ".join(toks)]
+    if k == "obj":
+        d = enc_attrs(case.get("default") or DEFAULT_LIST)
+        out = []
+        for spec in case["objs"]:
+            e = enc_obj(spec, case["sheets"])
+            out += [f"orules {e}", f"ohash {e}"] + [f"oq {d} {e} {enc_str(t)}" for t in case["strs"]]
+        return out
+    if k == "msess":
+        d = enc_attrs(case.get("default") or DEFAULT_LIST)
+        out = ["mnew"]
+        cur = {}
+        for st in case["steps"]:
+            if st[0] == "set":
+                cur[st[1]] = st[2]
+            else:
+                snap = [snapshot(p, cur) for p in case["top"]]
+                e = " ".join([str(len(snap))] + [enc_obj(x, case["sheets"]) for x in snap])
+                out += [f"mq {d} {e} {enc_str(st[1])}", f"ohash M {e}"]
+        return out
+    if k == "app":
+        d = enc_attrs(case.get("default") or DEFAULT_LIST)
+        u = "X" if case["user"] is None else "U " + enc_obj(case["user"], case["sheets"])
+        return [f"app {1 if case['inc'] else 0} {d} {u} {enc_str(t)}" for t in case["strs"]]
+    if k == "tr":
+        e = enc_tr(case["t"])
+        out = [f"trh {e}"]
+        for a, (entries, _res) in zip(case["attrs"], tr_run(case)):
+            fl = [str(len(entries))]
+            for en in entries:
+                if en[0] == "SW":
+                    fl += ["SW", enc_str(en[1]), enc_str(en[2])]
+                else:
+                    fl += ["AD", str(en[1]), str(en[2]), enc_str(en[3]), enc_str(en[4])]
+            out.append(f"tr {enc_attrs(a)} {' '.join(fl)} {e}")
+        return out
+    if k == "stream":
+        return [f"stream {case['depth']} {len(case['attrs'])} " + " ".join(enc_attrs(a) for a in case["attrs"])]
     raise ValueError(k)
+
+
+# ------------------------------------------------------------------ style objects / transformations
+def enc_obj(spec, sheets) -> str:
+    t = spec[0]
+    if t == "S":
+        sh = sheets[spec[1]]
+        return " ".join(["S", str(spec[1]), str(len(sh))] + [enc_str(x) for r in sh for x in r])
+    if t in ("D", "N"):
+        return t
+    if t == "Y":
+        return "Y " + enc_obj(spec[1], sheets)
+    if t == "M":
+        kids = [x for x in spec[1] if x is not None]      # merge_styles drops None
+        return " ".join(["M", str(len(kids))] + [enc_obj(x, sheets) for x in kids])
+    raise ValueError(spec)
+
+
+def snapshot(spec, cur):
+    """replace every dynamic slot ['V', k] by what its getter returns now"""
+    if spec is None:
+        return None
+    t = spec[0]
+    if t == "V":
+        tgt = cur.get(spec[1])
+        return ["N"] if tgt is None else ["Y", snapshot(tgt, cur)]
+    if t == "Y":
+        return ["Y", snapshot(spec[1], cur)]
+    if t == "M":
+        return ["M", [snapshot(x, cur) for x in spec[1]]]
+    return spec
+
+
+class Builder:
+    """real objects for specs; Style objects are shared by sheet index (one object = one identity)"""
+
+    def __init__(self, sheets):
+        self.sheets = [Style([tuple(r) for r in sh]) for sh in sheets]
+        self.ids = {id(st.class_names_and_attrs): i for i, st in enumerate(self.sheets)}
+        self.cur = {}
+        self.memo = {}
+
+    def build(self, spec):
+        if spec is None:
+            return None
+        t = spec[0]
+        if t == "S":
+            return self.sheets[spec[1]]
+        if t == "D":
+            return DummyStyle()
+        if t == "N":
+            return DynamicStyle(lambda: None)
+        if t == "Y":
+            o = self.build(spec[1])
+            return DynamicStyle(lambda o=o: o)
+        if t == "V":
+            k = spec[1]
+            return DynamicStyle(lambda k=k: self.target(k))
+        if t == "M":
+            return merge_styles([self.build(x) for x in spec[1]])
+        raise ValueError(spec)
+
+    def target(self, k):
+        spec = self.cur.get(k)
+        if spec is None:
+            return None
+        key = (k, repr(spec))
+        if key not in self.memo:
+            self.memo[key] = self.build(spec)
+        return self.memo[key]
+
+    def canon_hash(self, h) -> str:
+        if isinstance(h, tuple):
+            return "(" + ",".join(self.canon_hash(x) for x in h) + ")"
+        if h in self.ids:
+            return f"I{self.ids[h]}"
+        return str(h)
+
+
+def spec_rules(spec, sheets):
+    """the rule list the SPEC stands for (independent of the library's style_rules)"""
+    if spec is None:
+        return []
+    t = spec[0]
+    if t == "S":
+        return [tuple(r) for r in sheets[spec[1]]]
+    if t in ("D", "N"):
+        return []
+    if t == "Y":
+        return spec_rules(spec[1], sheets)
+    if t == "M":
+        return [r for x in spec[1] for r in spec_rules(x, sheets)]
+    raise ValueError(spec)
+
+
+def q_or_err(obj, s, dflt):
+    try:
+        return obj.get_attrs_for_style_str(s, dflt)
+    except ValueError:
+        return "err:ValueError"
+    except AssertionError:
+        return "err:AssertionError"
+
+
+def enc_res(r):
+    return r if isinstance(r, str) else enc_attrs(r)
+
+
+def enc_tr(t) -> str:
+    k = t[0]
+    if k in ("W", "R", "D", "N"):
+        return k
+    if k == "SD":
+        return f"SD {enc_str(t[1])} {enc_str(t[2])}"
+    if k == "AB":
+        return f"AB {t[1]} {t[2]}"
+    if k == "Y":
+        return "Y " + enc_tr(t[1])
+    if k == "C":
+        return f"C {1 if t[2] else 0} " + enc_tr(t[1])
+    if k == "M":
+        return " ".join(["M", str(len(t[1]))] + [enc_tr(x) for x in t[1]])
+    raise ValueError(t)
+
+
+_FLT_LOG = []
+_orig_opposite = strans.get_opposite_color
+
+
+def _rec_opposite(colorname):
+    r = _orig_opposite(colorname)
+    if isinstance(colorname, str):
+        _FLT_LOG.append(("SW", colorname, r))
+    return r
+
+
+strans.get_opposite_color = _rec_opposite
+
+
+class _RecAdjust(AdjustBrightnessStyleTransformation):
+    """the real transformation; only records what the float pipeline printed for which colour"""
+
+    def transform_attrs(self, attrs):
+        out = super().transform_attrs(attrs)
+        from prompt_toolkit.utils import to_float
+        _FLT_LOG.append(("AD", round(to_float(self.min_brightness) * 1000), round(to_float(self.max_brightness) * 1000),
+                         attrs.color or "", out.color or ""))
+        return out
+
+
+def build_tr(t, callables=False):
+    k = t[0]
+    if k == "W":
+        return SwapLightAndDarkStyleTransformation()
+    if k == "R":
+        return ReverseStyleTransformation()
+    if k == "SD":
+        if callables:
+            return SetDefaultColorStyleTransformation(lambda: t[1], lambda: (lambda: t[2]))
+        return SetDefaultColorStyleTransformation(t[1], t[2])
+    if k == "AB":
+        if callables:
+            return _RecAdjust(lambda: t[1] / 1000.0, lambda: t[2] / 1000.0)
+        return _RecAdjust(t[1] / 1000.0, t[2] / 1000.0)
+    if k == "D":
+        return DummyStyleTransformation()
+    if k == "N":
+        return DynamicStyleTransformation(lambda: None)
+    if k == "Y":
+        inner = build_tr(t[1], callables)
+        return DynamicStyleTransformation(lambda: inner)
+    if k == "C":
+        from prompt_toolkit.filters import Condition
+        inner = build_tr(t[1], callables)
+        return ConditionalStyleTransformation(inner, Condition(lambda: t[2]) if callables else t[2])
+    if k == "M":
+        return merge_style_transformations([build_tr(x, callables) for x in t[1]])
+    raise ValueError(t)
+
+
+def canon_trhash(h) -> str:
+    if isinstance(h, str):
+        if h == "dummy-style-transformation":
+            return "dummy"
+        name = h.rsplit("-", 1)[0]
+        return {"SwapLightAndDarkStyleTransformation": "inst0", "ReverseStyleTransformation": "inst1"}.get(name, h)
+    if isinstance(h, tuple):
+        if len(h) == 3 and h[0] == "set-default-color":
+            return f"sd:{enc_str(h[1])}:{enc_str(h[2])}"
+        if len(h) == 3 and h[0] == "adjust-brightness":
+            return f"ab:{round(h[1] * 1000)}:{round(h[2] * 1000)}"
+        if len(h) == 2 and isinstance(h[0], bool):
+            return f"c{1 if h[0] else 0}[{canon_trhash(h[1])}]"
+        return "(" + ",".join(canon_trhash(x) for x in h) + ")"
+    return repr(h)
+
+
+_tr_memo = {}
+
+
+def tr_run(case):
+    """per attrs: (float results measured on the real code, result Attrs | 'err:..')"""
+    key = repr((case["t"], case["attrs"], case.get("callables")))
+    if key in _tr_memo:
+        return _tr_memo[key]
+    if len(_tr_memo) > 3000:
+        _tr_memo.clear()
+    tr = build_tr(case["t"], bool(case.get("callables")))
+    out = []
+    for a in case["attrs"]:
+        del _FLT_LOG[:]
+        try:
+            r = tr.transform_attrs(Attrs(*a))
+        except ValueError:
+            r = "err:ValueError"
+        except AssertionError:
+            r = "err:AssertionError"
+        except Exception as e:  # noqa: BLE001   (outside the modelled domain, e.g. ZeroDivisionError in colorsys)
+            r = "err:" + type(e).__name__
+        seen, entries = set(), []
+        for en in _FLT_LOG:
+            if en not in seen and all(x is not None for x in en):
+                seen.add(en)
+                entries.append(en)
+        out.append((entries, r))
+    _tr_memo[key] = out
+    return out
+
+
+def stream_text(case):
+    c = esc_cache(case["depth"])
+    return "".join(c[Attrs(*a)] + chr(97 + i % 26) for i, a in enumerate(case["attrs"]))
+
+
+def fd_build(case):
+    d = dict((n, st) for n, st in case["items"])
+    assert len(d) == len(case["items"])
+    try:
+        return Style.from_dict(d, Priority.MOST_PRECISE if case["mp"] else Priority.DICT_KEY_ORDER)
+    except AssertionError:
+        return "err:AssertionError"
+    except ValueError:
+        return "err:ValueError"
+
+
+def app_style(case):
+    from prompt_toolkit.application import Application
+    from prompt_toolkit.input import DummyInput
+    from prompt_toolkit.output import DummyOutput
+    b = Builder(case["sheets"])
+    user = b.build(case["user"])
+    app = Application(style=user, include_default_pygments_style=bool(case["inc"]), input=DummyInput(),
+                      output=DummyOutput())
+    return app._merged_style, b
 
 
 # ------------------------------------------------------------------ real code
@@ -354,6 +751,50 @@ def impl_lines(case):
                 else:
                     out.append(enc_str(frags[0][0]) + " " + enc_attrs(back))
         return out
+    if k == "fd":
+        st = fd_build(case)
+        if isinstance(st, str):
+            return [st] * (1 + len(case["strs"]))
+        dflt = mk_default(case)
+        return [enc_rules([tuple(r) for r in st.style_rules])] + [enc_res(q_or_err(st, t, dflt)) for t in case["strs"]]
+    if k == "pyg":
+        try:
+            st = style_from_pygments_dict({tuple(tok): sty for tok, sty in case["items"]})
+            return [enc_rules([tuple(r) for r in st.style_rules])]
+        except (AssertionError, ValueError):
+            # Style(...) rejected a class name / a colour: the rule list is what the model prints
+            return [enc_rules([(pygments_token_to_classname(tuple(tok)), sty) for tok, sty in case["items"]])]
+    if k == "obj":
+        b = Builder(case["sheets"])
+        dflt = mk_default(case)
+        out = []
+        for spec in case["objs"]:
+            o = b.build(spec)
+            out.append(enc_rules([tuple(r) for r in o.style_rules]))
+            out.append(b.canon_hash(o.invalidation_hash()))
+            out += [enc_res(q_or_err(o, t, dflt)) for t in case["strs"]]
+        return out
+    if k == "msess":
+        b = Builder(case["sheets"])
+        dflt = mk_default(case)
+        top = merge_styles([b.build(p) for p in case["top"]])
+        out = ["ok"]
+        for st in case["steps"]:
+            if st[0] == "set":
+                b.cur[st[1]] = st[2]
+            else:
+                out.append(enc_res(q_or_err(top, st[1], dflt)))
+                out.append(b.canon_hash(top.invalidation_hash()))
+        return out
+    if k == "app":
+        st, _ = app_style(case)
+        dflt = mk_default(case)
+        return [enc_res(q_or_err(st, t, dflt)) for t in case["strs"]]
+    if k == "tr":
+        tr = build_tr(case["t"], bool(case.get("callables")))
+        return [canon_trhash(tr.invalidation_hash())] + [enc_res(r) for _, r in tr_run(case)]
+    if k == "stream":
+        return [enc_frags(list(ANSI(stream_text(case)).__pt_formatted_text__()))]
     raise ValueError(k)
 
 
@@ -701,6 +1142,20 @@ def oracle(case):
                           "msg": f"{(bg, r, g, b, ex)} -> {code} {name}"})
     elif k in ("esc", "rt"):
         v = oracle_esc(case)
+    elif k == "fd":
+        v = oracle_fd(case)
+    elif k == "pyg":
+        v = oracle_pyg(case)
+    elif k == "obj":
+        v = oracle_obj(case)
+    elif k == "msess":
+        v = oracle_msess(case)
+    elif k == "app":
+        v = oracle_app(case)
+    elif k == "tr":
+        v = oracle_tr(case)
+    elif k == "stream":
+        v = oracle_stream(case)
     # pc / ps / ex / hex / ansi: correspondence only (building blocks)
     seen, out = set(), []
     for x in v:
@@ -708,6 +1163,268 @@ def oracle(case):
             seen.add(x["signature"])
             out.append(x)
     return out
+
+
+def precision(names):
+    """the documented meaning of MOST_PRECISE: number of elements, counting both blanks and dots"""
+    return sum(1 + w.count(".") for w in names.split())
+
+
+def style_or_none(rules):
+    try:
+        return Style(list(rules))
+    except (AssertionError, ValueError):
+        return None
+
+
+def oracle_fd(case):
+    v = []
+    st = fd_build(case)
+    items = [tuple(r) for r in case["items"]]
+    if isinstance(st, str):
+        if all(style_or_none([r]) is not None for r in items):
+            v.append({"signature": "Style.from_dict | raises although every rule is acceptable",
+                      "msg": f"items={items!r} priority={'MOST_PRECISE' if case['mp'] else 'DICT_KEY_ORDER'} -> {st}"})
+        return v
+    rules = [tuple(r) for r in st.style_rules]
+    if not case["mp"]:
+        if rules != items:
+            v.append({"signature": "Style.from_dict | DICT_KEY_ORDER does not keep the dict order",
+                      "msg": f"items={items!r} -> {rules!r}"})
+    else:
+        keys = [precision(n) for n, _ in rules]
+        ok = sorted(rules) == sorted(items) and all(a <= b for a, b in zip(keys, keys[1:]))
+        for kk in set(keys):
+            if [r for r in rules if precision(r[0]) == kk] != [r for r in items if precision(r[0]) == kk]:
+                ok = False
+        if not ok:
+            v.append({"signature": "Style.from_dict | MOST_PRECISE is not the stable sort by number of elements",
+                      "msg": f"items={items!r} -> {rules!r}"})
+    dflt = mk_default(case)
+    for t in case["strs"]:
+        r = q_or_err(st, t, dflt)
+        if isinstance(r, str):
+            continue
+        exp, _ = expected_cascade(Style(rules).class_names_and_attrs, t, dflt)
+        if r != exp:
+            v.append({"signature": "Style.get_attrs_for_style_str | not the last applicable value",
+                      "msg": f"from_dict items={items!r} mp={case['mp']} style={t!r}: got {r}, last-wins gives {exp}"})
+    return v
+
+
+def oracle_pyg(case):
+    v = []
+    try:
+        st = style_from_pygments_dict({tuple(tok): sty for tok, sty in case["items"]})
+    except (AssertionError, ValueError):
+        return v
+    want = [(".".join(["pygments"] + list(tok)).lower(), sty) for tok, sty in case["items"]]
+    got = [tuple(r) for r in st.style_rules]
+    if got != want:
+        v.append({"signature": "style_from_pygments_dict | rules are not ('pygments.<token path>', style) in dict order",
+                  "msg": f"items={case['items']!r} -> {got!r}"})
+    # a rule for a token applies to text of every sub-token (dotted prefix semantics) and to no other
+    toks = [tuple(tok) for tok, _ in case["items"]]
+    for t2 in toks:
+        cls = "class:" + pygments_token_to_classname(t2)
+        try:
+            _, present = expected_cascade(st.class_names_and_attrs, cls, DEFAULT_ATTRS)
+        except ValueError:
+            continue
+        for t1 in toks:
+            if any(("." in x or "," in x or x != x.strip() or " " in x or not x) for x in t1 + t2):
+                continue
+            name = pygments_token_to_classname(t1)
+            is_prefix = [x.lower() for x in t2[:len(t1)]] == [x.lower() for x in t1]
+            if (name in present) != is_prefix:
+                v.append({"signature": "pygments class names | rule of a token does not apply exactly to its sub-tokens",
+                          "msg": f"rule token {t1} text token {t2}: classes present {sorted(present)}"})
+    return v
+
+
+def resolves_to_sheet(spec):
+    while spec is not None and spec[0] == "Y":
+        spec = spec[1]
+    return spec is not None and spec[0] in ("S", "M")
+
+
+def oracle_obj(case):
+    v = []
+    b = Builder(case["sheets"])
+    dflt = mk_default(case)
+    seen = {}
+    for spec in case["objs"]:
+        o = b.build(spec)
+        want = spec_rules(spec, case["sheets"])
+        got = [tuple(r) for r in o.style_rules]
+        if got != want:
+            v.append({"signature": "style_rules | not the concatenation of the constituent rules",
+                      "msg": f"sheets={case['sheets']!r} object={spec!r}: style_rules={got!r}, expected {want!r}"})
+        h = o.invalidation_hash()
+        if h in seen and seen[h][1] != want:
+            v.append({"signature": "invalidation_hash | equal hash for different rules",
+                      "msg": f"sheets={case['sheets']!r}: {seen[h][0]!r} and {spec!r} share the hash but have rules "
+                             f"{seen[h][1]!r} / {want!r}"})
+        seen.setdefault(h, (spec, want))
+        if not resolves_to_sheet(spec):
+            continue      # DummyStyle / DynamicStyle returning None: 'a style that doesn't style anything'
+        one = style_or_none(want)
+        if one is None:
+            continue
+        for t in case["strs"]:
+            r = q_or_err(o, t, dflt)
+            w = q_or_err(one, t, dflt)
+            if r != w:
+                v.append({"signature": "merge_styles | differs from concatenated sheet",
+                          "msg": f"sheets={case['sheets']!r} object={spec!r} style={t!r}: {r} != one sheet {w}"})
+    return v
+
+
+def oracle_msess(case):
+    v = []
+    b = Builder(case["sheets"])
+    dflt = mk_default(case)
+    top = merge_styles([b.build(p) for p in case["top"]])
+    cur = {}
+    for n, st in enumerate(case["steps"]):
+        if st[0] == "set":
+            b.cur[st[1]] = st[2]
+            cur[st[1]] = st[2]
+            continue
+        r = q_or_err(top, st[1], dflt)
+        want_rules = [r2 for p in case["top"] for r2 in spec_rules(snapshot(p, cur), case["sheets"])]
+        one = style_or_none(want_rules)
+        if one is None:
+            continue
+        w = q_or_err(one, st[1], dflt)
+        if r != w:
+            v.append({"signature": "merge_styles | stale merged style after a DynamicStyle returned another style",
+                      "msg": f"sheets={case['sheets']!r} top={case['top']!r} steps={case['steps'][:n + 1]!r}: got {r}, "
+                             f"one sheet with the current rules {want_rules!r} gives {w}"})
+    return v
+
+
+_UI_RULES = None
+
+
+def ui_rules():
+    global _UI_RULES
+    if _UI_RULES is None:
+        _UI_RULES = ([tuple(r) for r in default_ui_style().style_rules],
+                     [tuple(r) for r in default_pygments_style().style_rules])
+    return _UI_RULES
+
+
+def oracle_app(case):
+    v = []
+    st, b = app_style(case)
+    dflt = mk_default(case)
+    ui, pyg = ui_rules()
+    user = spec_rules(case["user"], case["sheets"])
+    rules = ui + (pyg if case["inc"] else []) + user
+    one = style_or_none(rules)
+    if one is None:
+        return v
+    for t in case["strs"]:
+        r = q_or_err(st, t, dflt)
+        w = q_or_err(one, t, dflt)
+        if r != w:
+            v.append({"signature": "Application style | not defaults + pygments + user rules as one sheet",
+                      "msg": f"user={user!r} include_pygments={case['inc']} style={t!r}: {r} != {w}"})
+    # a user rule beats a default rule for the same classes: query exactly the classes of a user rule
+    sel = [frozenset(n.split()) for n, _ in user]
+    if any(len(x) == 0 for x in sel) or len(set(sel)) != len(sel):
+        return v
+    for names, sty in user:
+        if " " in names.strip() or "." in names or not names.strip():
+            continue
+        try:
+            want = _parse_style_str(sty)
+        except ValueError:
+            continue
+        r = q_or_err(st, "class:" + names.strip(), dflt)
+        if isinstance(r, str):
+            continue
+        for i, f in enumerate(FIELDS):
+            if want[i] is not None and r[i] != want[i]:
+                v.append({"signature": "Application style | a default rule overrides the user rule for the same class",
+                          "msg": f"user rule {(names, sty)!r}: 'class:{names.strip()}' resolves {f}={r[i]!r}"})
+    return v
+
+
+def apply_spec(t, a, callables):
+    """the transformation tree applied by hand: merged = one after the other, conditional / dynamic unwrapped"""
+    k = t[0]
+    if k in ("D", "N"):
+        return a
+    if k == "Y":
+        return apply_spec(t[1], a, callables)
+    if k == "C":
+        return apply_spec(t[1], a, callables) if t[2] else a
+    if k == "M":
+        for x in t[1]:
+            a = apply_spec(x, a, callables)
+        return a
+    return build_tr(t, callables).transform_attrs(a)
+
+
+def oracle_tr(case):
+    v = []
+    callables = bool(case.get("callables"))
+    results = tr_run(case)
+    for a, (_, r) in zip(case["attrs"], results):
+        a = Attrs(*a)
+        if isinstance(r, str):
+            continue
+        if tuple(r[2:7]) + (r[8],) != tuple(a[2:7]) + (a[8],):
+            v.append({"signature": "style transformation | changes a flag other than reverse",
+                      "msg": f"t={case['t']!r} attrs={a} -> {r}"})
+        if all(x is not None for x in a) and any(x is None for x in r):
+            v.append({"signature": "style transformation | attribute not concrete",
+                      "msg": f"t={case['t']!r} attrs={a} -> {r}"})
+        try:
+            w = apply_spec(case["t"], a, callables)
+        except Exception:  # noqa: BLE001
+            w = None
+        if w is not None and w != r:
+            v.append({"signature": "merge_style_transformations | not the composition in list order",
+                      "msg": f"t={case['t']!r} attrs={a}: {r} != step by step {w}"})
+        if valid_color(a.color or "") and valid_color(a.bgcolor or ""):
+            if not (valid_color(r.color or "") and valid_color(r.bgcolor or "")):
+                v.append({"signature": "style transformation | produces a colour that cannot be encoded",
+                          "msg": f"t={case['t']!r} attrs={a} -> {r}"})
+            else:
+                e, frags, back = real_rt(24, list(r))
+                if back != canon_attrs(r):
+                    v.append({"signature": "_EscapeCodeCache | 24-bit escape does not decode to the same attributes",
+                              "msg": f"transformed attrs={r} esc={e!r} decoded={back}"})
+    return v
+
+
+def oracle_stream(case):
+    """every escape sequence of a stream decodes to ITS attributes (each one starts with a reset)"""
+    v = []
+    d = case["depth"]
+    frags = list(ANSI(stream_text(case)).__pt_formatted_text__())
+    if len(frags) != len(case["attrs"]):
+        return [{"signature": "_EscapeCodeCache | escape code does not decode to one styled fragment",
+                 "msg": f"depth={d} attrs={case['attrs']!r} fragments={frags!r}"}]
+    for i, (a, fr) in enumerate(zip(case["attrs"], frags)):
+        if not (valid_color(a[0] or "") and valid_color(a[1] or "")):
+            continue
+        try:
+            back = Style([]).get_attrs_for_style_str(fr[0])
+        except ValueError:
+            back = None
+        want = canon_attrs(a)
+        bad = back is None or tuple(back[2:]) != tuple(want[2:]) or (d == 24 and back != want) or \
+            (d == 1 and (back.color or back.bgcolor))
+        if bad:
+            v.append({"signature": "_EscapeCodeCache | escape sequence inside a stream does not decode to its attributes",
+                      "msg": f"depth={d} stream attrs={case['attrs'][:i + 1]!r}: fragment {i} has style {fr[0]!r} "
+                             f"= {back}, expected {want}"})
+            break
+    return v
 
 
 _PAL16 = [(j, p) for j, p in enumerate(PALETTE) if j >= 16]
@@ -1039,6 +1756,183 @@ def _cases(tier, rng):
     items = [[bg, r, g, b, ex] for bg in (0, 1) for (r, g, b) in near[::7] for ex in ([], ["ansired"])]
     for ch in chunks(items, 400):
         yield {"k": "c16code", "items": ch}
+    # --- Style.from_dict / Priority -----------------------------------------------------
+    fd_names = ["a", "b", "a.x", "a b", "b a.x", "a.x.y", "", "b.y  a", "c"]
+    fd_strs = ["class:a", "class:a.x class:b", "class:b class:a.x.y", "class:a,b nobold", ""]
+    for combo in itertools.permutations(range(len(fd_names)), 3 if quick else 4):
+        if not quick and rng.random() < 0.5:
+            continue
+        items = [[fd_names[n], rule_attr(i, (n + i) % 3)] for i, n in enumerate(combo)]
+        for mp in (True, False):
+            yield {"k": "fd", "items": items, "mp": mp, "strs": fd_strs[:3] if quick else fd_strs}
+    for _ in range(150 if quick else 3000):
+        pool = R_NAMES if rng.random() < 0.2 else R_NAMES[:13]
+        names = rng.sample(pool, rng.choice([2, 4, 5, 7, 9]))
+        items = [[n, rand_style(rng, R_STYLES if rng.random() < 0.1 else R_STYLES[:38], 3)] for n in names]
+        c = {"k": "fd", "items": items, "mp": rng.random() < 0.7,
+             "strs": [rand_style(rng, R_PARTS[:15] + R_STYLES[:20], 5) for _ in range(3)]}
+        if rng.random() < 0.2:
+            c["default"] = rand_attrs(rng, False)
+        yield c
+    # --- pygments style dicts -----------------------------------------------------------
+    tok_pool = [[], ["Name"], ["Name", "Exception"], ["Keyword"], ["Keyword", "Type"], ["Literal", "String", "Doc"],
+                ["Literal"], ["Literal", "String"], ["Error"], ["name"], ["X-1", "y_2"]]
+    for n in range(1, 4):
+        for combo in itertools.combinations(range(len(tok_pool)), n):
+            if n == 3 and rng.random() < (0.8 if quick else 0.2):
+                continue
+            yield {"k": "pyg", "items": [[tok_pool[i], rule_attr(j, j % 3)] for j, i in enumerate(combo)]}
+    try:
+        from pygments.styles import get_style_by_name
+        for name in (["default"] if quick else ["default", "monokai", "tango", "vim"]):
+            items = [[list(tok), sty] for tok, sty in get_style_by_name(name).styles.items()]
+            yield {"k": "pyg", "items": items}
+    except Exception:  # noqa: BLE001
+        pass
+    for _ in range(40 if quick else 600):
+        bad = rng.random() < 0.15
+        words = ["Name", "Keyword", "Type", "String", "a", "B", "x-1"] + (["A b", "a.b", "a,b", ""] if bad else [])
+        toks = []
+        for _ in range(rng.choice([1, 2, 4])):
+            t = [rng.choice(words) for _ in range(rng.choice([0, 1, 2, 3]))]
+            if t not in toks:
+                toks.append(t)
+        yield {"k": "pyg", "items": [[t, rand_style(rng, R_STYLES[:38], 3)] for t in toks]}
+    # --- style objects: DummyStyle / DynamicStyle / nested merges, hashes ----------------------
+    o_sheets = [[["x", "fg:#ff0000"], ["y", "underline"]], [["x", "bold"], ["x y", "bg:#00ff00"]],
+                [["x", "italic"], ["", "blink"]], []]
+    leaves = [["S", 0], ["S", 1], ["S", 3], ["D"], ["N"], ["Y", ["S", 0]], ["Y", ["D"]], ["M", [["S", 0], ["S", 1]]],
+              ["M", []], ["Y", ["Y", ["S", 2]]], ["M", [["S", 2], None, ["N"]]]]
+    objs = list(leaves)
+    for a in leaves:
+        objs.append(["M", [a]])
+        for b2 in leaves:
+            objs.append(["M", [a, b2]])
+    objs += [["M", [["M", [["S", 0]]], ["M", [["S", 1]]]]], ["M", [["M", [["S", 0], ["S", 1]]]]],
+             ["Y", ["M", [["S", 0], ["S", 1]]]], ["M", [["S", 0], ["S", 0]]], ["M", [["S", 1], ["S", 0], ["S", 2]]]]
+    ostrs = ["class:x class:y", "class:y,x nobold", "", "#123456 class:x"]
+    for ch in chunks(objs, 12):
+        # (overlapping chunks so that objects with equal hashes meet in one case)
+        yield {"k": "obj", "sheets": o_sheets, "objs": ch + objs[-5:] + leaves[:3], "strs": ostrs[:3] if quick else ostrs}
+    def rand_spec(depth, nsh, slots=0):
+        r = rng.random()
+        if depth <= 0 or r < 0.45:
+            if slots and rng.random() < 0.3:
+                return ["V", rng.randrange(slots)]
+            return rng.choice([["S", rng.randrange(nsh)]] * 4 + [["D"], ["N"]])
+        if r < 0.6:
+            return ["Y", rand_spec(depth - 1, nsh, slots)]
+        return ["M", [rand_spec(depth - 1, nsh, slots) if rng.random() > 0.1 else None
+                      for _ in range(rng.choice([0, 1, 2, 2, 3]))]]
+    for _ in range(60 if quick else 1500):
+        nsh = rng.choice([2, 3, 4])
+        shs = [[[rng.choice(ok_names), rng.choice(ok_styles)] for _ in range(rng.choice([0, 1, 2, 3]))]
+               for _ in range(nsh)]
+        c = {"k": "obj", "sheets": shs, "objs": [rand_spec(3, nsh) for _ in range(8)],
+             "strs": [rand_style(rng, R_PARTS[:15] + ["bold", "#00f", "nobold"], 4) for _ in range(3)]}
+        if rng.random() < 0.2:
+            c["default"] = rand_attrs(rng, True)
+        yield c
+    # --- one merged style whose DynamicStyle parts change between queries (its cache) --------
+    tops = [[["S", 0], ["V", 0]], [["V", 0], ["S", 1], ["V", 1]], [["S", 0], ["M", [["V", 1], ["S", 1]]], ["Y", ["V", 0]]]]
+    acts = [["set", 0, ["S", 1]], ["set", 0, None], ["set", 0, ["S", 2]], ["set", 1, ["S", 2]], ["set", 1, ["D"]],
+            ["set", 1, ["M", [["S", 2], ["S", 0]]]], ["set", 0, ["Y", ["S", 1]]], ["set", 0, ["V", 1]]]
+    for top in tops:
+        for ln in ((1, 2) if quick else (1, 2, 3)):
+            for combo in itertools.product(range(len(acts)), repeat=ln):
+                steps = [["q", "class:x class:y"]]
+                for j, ai in enumerate(combo):
+                    steps += [acts[ai], ["q", ostrs[(ai + j) % 3]]]
+                steps += [["q", "class:x class:y"], ["set", 0, None], ["set", 1, None], ["q", "class:x class:y"]]
+                yield {"k": "msess", "sheets": o_sheets, "top": top, "steps": steps}
+    for _ in range(60 if quick else 2000):
+        nsh = rng.choice([2, 3, 4])
+        shs = [[[rng.choice(ok_names), rng.choice(ok_styles)] for _ in range(rng.choice([0, 1, 2, 3]))]
+               for _ in range(nsh)]
+        top = [rand_spec(2, nsh, 2) for _ in range(rng.choice([1, 2, 3, 4]))]
+        steps = []
+        for _ in range(rng.choice([3, 6, 10])):
+            if rng.random() < 0.5:
+                tgt = rand_spec(2, nsh, 0) if rng.random() > 0.2 else None
+                steps.append(["set", rng.randrange(2), tgt])
+            else:
+                steps.append(["q", rand_style(rng, R_PARTS[:15] + ["bold", "#00f"], 3)])
+        steps.append(["q", "class:a class:b"])
+        yield {"k": "msess", "sheets": shs, "top": top, "steps": steps}
+    # --- the style stack of an Application: defaults, pygments, user -------------------------
+    a_sheets = [[["search", "bg:#000001 noreverse"], ["pygments.keyword", "nobold #111111"],
+                 ["dialog.body text-area", "bg:#00ff01"], ["bottom-toolbar", "noreverse bold"]],
+                [["ansired", "fg:#010101"], ["aliceblue", "fg:ansiblue underline"], ["pygments.comment", "noitalic"]],
+                [["mine", "italic"], ["selected", "bg:ansiblue"], ["dialog", "bg:ansigreen"]]]
+    a_users = [None, ["S", 0], ["S", 1], ["S", 2], ["M", [["S", 0], ["S", 1]]], ["Y", ["S", 0]], ["D"],
+               ["M", [["S", 1], ["S", 0], ["S", 2]]]]
+    a_strs = ["class:search", "class:search.current", "class:dialog.body class:text-area", "class:pygments.keyword.type",
+              "class:pygments.comment.preproc", "class:ansired", "class:aliceblue", "class:bottom-toolbar",
+              "class:dialog class:frame.label", "class:mine,selected", "class:dialog.body class:scrollbar.start #123",
+              "class:menu.border class:shadow", "class:pygments.generic.output", "class:pygments.error", ""]
+    for u in a_users:
+        for inc in (True, False):
+            yield {"k": "app", "inc": inc, "user": u, "sheets": a_sheets, "strs": a_strs if (inc or not quick) else a_strs[:6]}
+    ui_names = sorted({n for n, _ in ui_rules()[0] if n and " " not in n})[:: (12 if quick else 2)]
+    pyg_names = [n for n, _ in ui_rules()[1]][:: (6 if quick else 1)]
+    for ch in chunks(ui_names + pyg_names, 10):
+        shs = [[[n, rule_attr(i, i % 3)] for i, n in enumerate(ch)]]
+        yield {"k": "app", "inc": True, "user": ["S", 0], "sheets": shs, "strs": ["class:" + n for n in ch]}
+    # --- style transformations ----------------------------------------------------------------
+    t_cols = [None, "", "default", "ansired", "ansidefault", "ansibrightblack", "ansiwhite", "ff0000", "00ff00", "808080",
+              "123456", "ABCDEF", "010101", "zz", "fff", "ansidarkred", "+1+2+3"]
+    t_bgs = [None, "", "default", "ansidefault", "000000", "ansiblue"]
+    t_attrs = [[c, b2, False, False, True, False, None, r, False] for c in t_cols for b2 in t_bgs
+               for r in (None, True, False)]
+    sds = [["SD", "ansired", "#abc"], ["SD", "", "default"], ["SD", "zz", ""], ["SD", "#00ff00", "nosuch"],
+           ["SD", "AliceBlue", "ansiblue"], ["SD", "#ansiteal", "ansidarkgray"]]
+    abs_ = [["AB", 0, 1000], ["AB", 300, 1000], ["AB", 0, 700], ["AB", 200, 800], ["AB", -1, 1000], ["AB", 0, 1001],
+            ["AB", 1000, 0], ["AB", 500, 500], ["AB", 2000, 3000]]
+    prims = [["W"], ["R"], ["D"], ["N"]] + sds + abs_
+    for t in prims:
+        yield {"k": "tr", "t": t, "attrs": t_attrs if t[0] in ("W", "AB", "SD") else t_attrs[::7]}
+    small = [["W"], ["R"], sds[0], sds[1], abs_[1], abs_[3], ["D"]]
+    wrapped = []
+    for t in small:
+        wrapped += [["Y", t], ["C", t, True], ["C", t, False], ["M", [t]], ["M", [t, t]]]
+    for a in small:
+        for b2 in small:
+            wrapped.append(["M", [a, b2]])
+    wrapped += [["M", []], ["M", [["M", [["W"], ["R"]]], ["C", ["M", [sds[0], abs_[1]]], True]]],
+                ["Y", ["Y", ["N"]]], ["C", ["C", ["R"], True], False], ["M", [["R"], ["R"], ["R"]]],
+                ["M", [["W"], sds[4], abs_[2], ["R"]]]]
+    for i, t in enumerate(wrapped):
+        yield {"k": "tr", "t": t, "attrs": t_attrs[i % 5::(11 if quick else 3)], "callables": i % 4 == 0}
+    def rand_tr(depth):
+        r = rng.random()
+        if depth <= 0 or r < 0.5:
+            return rng.choice(prims)
+        if r < 0.6:
+            return ["Y", rand_tr(depth - 1)]
+        if r < 0.75:
+            return ["C", rand_tr(depth - 1), rng.random() < 0.6]
+        return ["M", [rand_tr(depth - 1) for _ in range(rng.choice([0, 1, 2, 3, 4]))]]
+    for _ in range(150 if quick else 4000):
+        attrs = []
+        for _ in range(12):
+            a = rand_attrs(rng, rng.random() < 0.3)
+            if any(isinstance(x, str) and "-" in x for x in a[:2]):
+                continue       # signed slices lead into colorsys with negative components (ZeroDivisionError)
+            attrs.append(a)
+        yield {"k": "tr", "t": rand_tr(3), "attrs": attrs, "callables": rng.random() < 0.3}
+    # --- streams of escape sequences ---------------------------------------------------------
+    strike_on = ["ff0000", "", False, False, True, False, False, False, False]
+    plain = ["00ff00", "ansiblue", False, False, False, False, False, False, False]
+    allon = ["ansired", "0000ff", True, True, True, True, True, True, True]
+    for d in (1, 4, 8, 24):
+        yield {"k": "stream", "depth": d, "attrs": [strike_on, plain, allon, plain, DEFAULT_LIST, allon, DEFAULT_LIST]}
+        for i in range(7):
+            one = list(DEFAULT_LIST)
+            one[2 + i] = True
+            yield {"k": "stream", "depth": d, "attrs": [one, DEFAULT_LIST, allon, one, plain]}
+    for _ in range(100 if quick else 3000):
+        yield {"k": "stream", "depth": rng.choice([1, 4, 8, 24, 24, 24]),
+               "attrs": [rand_attrs(rng, rng.random() < 0.15) for _ in range(rng.choice([2, 3, 5, 9]))]}
     # --- seeded random -----------------------------------------------------------------
     nq = 1500 if quick else 40000
     for _ in range(nq):
@@ -1074,7 +1968,7 @@ def _cases(tier, rng):
 
 def sample_view(case):
     c = dict(case)
-    for key in ("strs", "texts", "rgbs", "items", "attrs", "gs", "ops"):
+    for key in ("strs", "texts", "rgbs", "items", "attrs", "gs", "ops", "objs", "steps"):
         if key in c and len(c[key]) > 4:
             c[key] = list(c[key][:4]) + [f"... {len(case[key])} in total"]
     return c
@@ -1086,6 +1980,14 @@ def nontrivial(case):
         return any(s for s in case["sheets"] if s) and any(case["strs"])
     if k == "sess":
         return sum(1 for op in case["ops"] if op[1][0] == "M") >= 2
+    if k == "fd":
+        return len(case["items"]) >= 2
+    if k == "obj":
+        return any(sp and sp[0] in ("M", "Y") for sp in case["objs"])
+    if k == "msess":
+        return any(st[0] == "set" for st in case["steps"])
+    if k == "tr":
+        return case["t"][0] not in ("D", "N")
     return True
 
 
